@@ -938,8 +938,10 @@ def _do_dirty(ctx: Rec, unit: dict):
     sched_flag = 0 if isinstance(cfg, dict) else 1
     rngflag = int(iso.uses_global_rng(cfg)) if isinstance(cfg, dict) else 1
     buildflag = int(iso.draws_at_build(cfg)) if isinstance(cfg, dict) else 1
-    gs = cfg0.get("game", {}).get("seed") if not unit.get("marl") else None
-    ctor = f"constructopt {iso.seed_text(gs if isinstance(gs, int) else None)}"
+    gs = cfg0.get("game", {}).get("seed")
+    # the multi-agent environment: the seed arguments go to the model as they are, `marlResetCall` / `marlConstructCall` say what they mean
+    rop = "marlresetopt" if unit.get("marl") else "resetopt"
+    ctor = f"{'marlconstructopt' if unit.get('marl') else 'constructopt'} {iso.seed_text(gs if isinstance(gs, int) else None)}"
     reported = False
     for res in r["results"]:
         seed = res["seed"]
@@ -963,10 +965,10 @@ def _do_dirty(ctx: Rec, unit: dict):
         # model: used = instance 0, fresh = instance 1, same environment-level attributes; the seed argument goes to the model AS IT IS
         lines = ["reset", f"new 0 7 1 0 {rngflag} {sched_flag} 0 {buildflag}", f"new 1 7 1 0 {rngflag} {sched_flag} 0 {buildflag}", f"ev 0 {ctor}"]
         for op in res["history"]:
-            lines.append(f"ev 0 resetopt {iso.seed_text(op[1] if not unit.get('marl') else None)}" if op[0] == "reset" else f"ev 0 step {op[1] % 1000}")
-        later_lines = [f"ev X resetopt {iso.seed_text(seed)}"] + [f"ev X step {op[1] % 1000}" for op in res["later"][1:]]
+            lines.append(f"ev 0 {rop} {iso.seed_text(op[1])}" if op[0] == "reset" else f"ev 0 step {op[1] % 1000}")
+        later_lines = [f"ev X {rop} {iso.seed_text(seed)}"] + [f"ev X step {op[1] % 1000}" for op in res["later"][1:]]
         lines += (["saverng"] if seed is None else []) + [l.replace("X", "0") for l in later_lines]
-        lines += [f"ev 1 {ctor}"] + [f"ev 1 resetopt {iso.seed_text(1000003 + k if not unit.get('marl') else None)}" for k in range(res["fresh_resets"])]
+        lines += [f"ev 1 {ctor}"] + [f"ev 1 {rop} {1000003 + k}" for k in range(res["fresh_resets"])]
         lines += (["restorerng"] if seed is None else []) + [l.replace("X", "1") for l in later_lines]
         lines.append(f"cmptail 0 1 {len(later_lines)}")
         ctx.model_lines += lines
